@@ -66,7 +66,7 @@ def strategy():
         # what the time function returns: 0 floats (multiples of 1/8), 1 integers beyond 2**53 (nanosecond
         # clocks), 2 exact rationals - the deltas are the exact differences in each case
         'clock': st.integers(0, 2),
-        'faults': st.lists(st.integers(0, 16 * 4 * 12 * 3 - 1).map(decode_fault), max_size=2),
+        'faults': st.lists(worldops.packed(16 * 4 * 12 * 3).map(decode_fault), max_size=2),
         # scale: 0, or the number of iterations of the first start() (the clock readings are continued by
         # cycling through the generated gaps); faults are then enumerated at sampled iterations only
         'amp': worldops.size_amp(none=60, sizes=(70, 130, 260, 300, 520))})
